@@ -67,6 +67,12 @@ fn parse_tok(s: &str) -> Tok {
             return Tok::N(n);
         }
     }
+    if b[0] == b'z' && b.len() > 1 {
+        // z<count>: <count> pattern bytes (i*7+3) mod 256 -- keeps scripts with large inputs small
+        if let Ok(n) = s[1..].parse::<usize>() {
+            return Tok::H((0..n).map(|i| ((i * 7 + 3) & 255) as u8).collect());
+        }
+    }
     if b[0] == b'x' && b.len() % 2 == 1 && b[1..].iter().all(|c| hexv(*c).is_some()) {
         let mut v = Vec::with_capacity(b.len() / 2);
         let mut i = 1;
@@ -220,7 +226,18 @@ fn window(st: &St) -> Vec<u8> {
     st.stream[from..to].to_vec()
 }
 
-fn do_write_body(st: &mut St, input: &[u8], cap: usize, track: bool) -> String {
+fn checksum(b: &[u8]) -> u64 {
+    // Fletcher style, additions only (cheap in the extracted model)
+    let mut s1: u64 = 7;
+    let mut s2: u64 = 0;
+    for x in b {
+        s1 += *x as u64;
+        s2 += s1;
+    }
+    s2
+}
+
+fn do_write_body(st: &mut St, input: &[u8], cap: usize, track: bool, sum: bool) -> String {
     let mut out = outbuf(cap);
     let r = match &mut st.obj {
         Obj::SendBody(f) => f.write(input, &mut out),
@@ -232,7 +249,11 @@ fn do_write_body(st: &mut St, input: &[u8], cap: usize, track: bool) -> String {
             if track {
                 st.sent += i;
             }
-            format!("ok #{} #{} {}", i, o, hex(&out[..o]))
+            if sum {
+                format!("ok #{} #{} #{}", i, o, checksum(&out[..o]))
+            } else {
+                format!("ok #{} #{} {}", i, o, hex(&out[..o]))
+            }
         }
         Err(e) => err_name(&e),
     }
@@ -471,12 +492,13 @@ fn step(st: &mut St, toks: &[Tok]) -> String {
                 Err(e) => err_name(&e),
             }
         }
-        ("write_body", [Tok::H(input), Tok::N(cap)]) => do_write_body(st, input, clamp(*cap), false),
+        ("write_body", [Tok::H(input), Tok::N(cap)]) => do_write_body(st, input, clamp(*cap), false, false),
+        ("write_sum", [Tok::H(input), Tok::N(cap)]) => do_write_body(st, input, clamp(*cap), false, true),
         ("write_from", [Tok::N(t), Tok::N(cap)]) => {
             let from = st.sent.min(st.body.len());
             let to = from.saturating_add(clamp(*t)).min(st.body.len());
             let input = st.body[from..to].to_vec();
-            do_write_body(st, &input, clamp(*cap), true)
+            do_write_body(st, &input, clamp(*cap), true, true)
         }
         ("direct", [Tok::N(a)]) => match &mut st.obj {
             Obj::SendBody(f) => match f.consume_direct_write(clamp(*a)) {
